@@ -918,7 +918,7 @@ pub fn prop() -> DiceProp {
         build,
         fixed: no_fixed,
         classify,
-        rule: "enum with 1..5 unit / tuple (0..3 fields) / named variants (named only with IsVariant+TryInto), field types distinct non-ZST newtypes incl. generic (`T`, `W<T>`), borrowed (`&'a A`) and const-generic (`[A; N]`) ones, variants sharing a field-type tuple, `ignore` on variants and (TryInto) fields, enum-level and variant-level owned/ref/ref_mut, TryInto opt-in, multi-word / lower-case / raw-identifier / one-letter / acronym / ALL_CAPS variant names, named variants next to Unwrap/TryUnwrap when ignored there, parameter defaults and a second bounded lifetime; oracle: full table (one value per variant) x (every accessor that the docs promise or the expansion declares) against hand-written matches (values for owned forms, addresses for ref/mut forms, caught panics, error.input, the TryUnwrapError text naming the function and the actual variant), accessors called by snake_case name, colliding user items for accessors that must be absent; non-trivial = two variants share a field-type tuple, or an ignore, or a variant with >= 2 fields; distinct by program text".into(),
+        rule: "enum with 1..5 unit / tuple (0..3 fields) / named variants (named only with IsVariant+TryInto), field types distinct non-ZST newtypes (two of them called `A`, in different modules) incl. generic (`T`, `W<T>`), borrowed (`&'a A`) and const-generic (`[A; N]`) ones, variants sharing a field-type tuple, `ignore` on variants and (TryInto) fields, enum-level and variant-level owned/ref/ref_mut, TryInto opt-in, multi-word / lower-case / raw-identifier / one-letter / acronym / ALL_CAPS variant names, named variants next to Unwrap/TryUnwrap when ignored there, parameter defaults and a second bounded lifetime; oracle: full table (one value per variant) x (every accessor that the docs promise or the expansion declares) against hand-written matches (values for owned forms, addresses for ref/mut forms, caught panics, error.input, the TryUnwrapError text naming the function and the actual variant), accessors called by snake_case name, colliding user items for accessors that must be absent; non-trivial = two variants share a field-type tuple, or an ignore, or a variant with >= 2 fields; distinct by program text".into(),
         assumptions: vec![
             "snake_case of a variant name is taken as the lower-cased `[A-Z][a-z]+` words joined by `_`; outside that scheme only names on which the usual conventions agree are generated (one-letter words, acronym + word, ALL_CAPS); names with digits are not".into(),
             "AVOID_VARIANT_LEVEL_REF_UNWRAP: variant-level owned/ref/ref_mut of Unwrap/TryUnwrap is a reported deviation from unwrap.md and kept out of the generated domain until repaired".into(),
